@@ -35,6 +35,9 @@ Definition QcNum : NumOps :=
   mkNum Qc (fun z => Q2Qc (inject_Z z)) Qcplus Qcmult Qcopp Qcdiv Qc_eq_bool
         (fun a b => match (a ?= b)%Qc with Lt => true | _ => false end).
 
+(* rational literal a/b (used by the generated case files) *)
+Definition qq (a : Z) (b : positive) : Qc := Q2Qc (a # b).
+
 Definition RNum : NumOps :=
   mkNum R IZR Rplus Rmult Ropp Rdiv
         (fun a b => if Req_EM_T a b then true else false)
